@@ -137,4 +137,7 @@ def run(tier, seed):
         "C09", progs2, Build(tier, seed + 1, named_flow=True), tier, seed, "model_checking",
         rule="as above, story played inside a named flow",
         ex_kw=dict(depth=3, max_paths=8)) if False else 0
+    # the same property against the executable model of the host interface (absolute oracle, Tier-S programs)
+    import hostmodel
+    nviol += hostmodel.check("C09", "refuse", tier, seed)
     return nviol
